@@ -75,3 +75,21 @@ Section Request.
       eexists; split; reflexivity.
   Qed.
 End Request.
+
+(** whole requests never crash (for C03) *)
+From ApiFu Require Import Exe.ExecHyps Exe.ExecProofs.
+Theorem request_total S R opname E n W :
+  type_names_okb S = true ->
+  (forall o, s_get_operation R (opname_of opname) = Some o ->
+     doc_positions_okb (doc_of R o) = true /\
+     doc_ok S (doc_of R o) E (default_fuel (doc_of R o)) n = true) ->
+  forall fuel, (forall o, s_get_operation R (opname_of opname) = Some o -> fuel = default_fuel (doc_of R o)) ->
+  exists d errs, run_request fixed S R opname E fuel W = Done d errs.
+Proof.
+  intros Hn Hsel fuel Hfuel.
+  destruct (s_get_operation R (opname_of opname)) as [o|] eqn:Es.
+  - rewrite (run_request_selected fixed S R opname E fuel W o Es).
+    destruct (Hsel o eq_refl) as [Hp Hd]. rewrite (Hfuel o eq_refl).
+    exact (exec_total S (doc_of R o) E _ Hn Hp n Hd W).
+  - destruct (run_request_refused fixed S R opname E fuel W Es) as [e [H _]]. rewrite H. eauto.
+Qed.
